@@ -235,6 +235,19 @@ def check(pm: ProgramModel, ctx: Ctx) -> None:
                                   f"{reader} rejects the document {label}: {r['raise'][0]}")
                     continue
                 model = r["model"]
+                if ref is not None and label.split("/")[-1] in ("rich", "plain", "ids", "negations") or label.endswith("large-many-constraints"):
+                    # the model read is a function of the document: a Python set has no defined iteration order (it changes
+                    # with PYTHONHASHSEED), so the reader is decided under both extreme orders
+                    from ..roundtrip import describe, diff
+                    vfs2 = VFS()
+                    vfs2.files[PATH] = content
+                    r2 = run_reader(pm, reader, vfs2, setup=both, set_order="desc")
+                    dd = diff(describe(model), describe(r2["model"]), ctc_names=True, relation_order=True) \
+                        if r2["model"] is not None else [("raise", str(r2["raise"]))]
+                    ctx.check(not dd, "C02-SHAPE", f"{reader}:{label}:set-order", where,
+                              "the model read is the same under both extreme set iteration orders",
+                              bad=f"document {label}: the model read depends on the iteration order of a Python set (PYTHONHASHSEED): "
+                                  f"{dd[0][1] if dd else ''}")
                 wf = wellformed(model)
                 cats = sorted({c for c, _ in wf})
                 rule_of = {"unary-slot": "C02-NODE", "binary-slot": "C02-NODE", "aggregate-slot": "C02-NODE",
